@@ -234,7 +234,19 @@ class CompositeFrontend(ConstrainedFrontend):
                     self._owned_solvers.add(ns)
                     self._store_child(ns)
 
+    def _remove_child(self, s):
+        """
+        Forget child `s`, which is being superseded. A variable of `s` that its successors do not constrain any longer
+        must not keep pointing to `s`, or two children would share variables.
+        """
+        for v in [v for v, c in self._solvers.items() if c is s]:
+            del self._solvers[v]
+
     def _store_child(self, ns, extra_names=frozenset(), invalidate_cache=True):
+        # ns (together with the other parts, if it is the result of a split) supersedes every child it overlaps
+        for s in self._solvers_for_variables(ns.variables):
+            if s is not ns:
+                self._remove_child(s)
         for v in ns.variables | extra_names:
             # os = self._solvers[v]
             self._solvers[v] = ns
@@ -330,7 +342,7 @@ class CompositeFrontend(ConstrainedFrontend):
                 # skip solvers covered by extra constraints (they were checked above)
                 continue
 
-            if len(s.variables) == 0 or self._solvers[min(iter(s.variables))] is not s:
+            if len(s.variables) == 0 or self._solvers.get(min(iter(s.variables))) is not s:
                 # this happens when a parent solver didn't check all unchecked solvers, and we have stale
                 # child solvers in the unchecked list
                 continue
